@@ -239,6 +239,11 @@ def run_simulated(spec, config, seed, choices=None, result_file=None, knobs=None
     _instrument()                      # bytecode-level pre-emption points in the parent's callback / loader / consumer code
     if knobs.get("opcode_plan"):
         sim.opcode_plan = list(knobs["opcode_plan"])
+    if knobs.get("opcode_points"):
+        sim.opcode_points = {tuple(p) for p in knobs["opcode_points"]}
+    if knobs.get("opcode_dense"):
+        f_, k_ = knobs["opcode_dense"]
+        sim.opcode_points = (sim.opcode_points or set()) | {(f_, k_ + d, o) for d in (0, 1) for o in range(0, 160)}
     sink = ListSinkH()
     quiet_context(sink)
     exp, objs = prebuilt if prebuilt is not None else build_experiment(spec)
@@ -437,4 +442,6 @@ def gen_config(rng):
 def gen_knobs(rng):
     return {"feeder_delay": rng.random() < 0.4, "pipe_cap": weighted(rng, [(None, 5), (2, 1)]),
             "p_stay": weighted(rng, [(0.0, 1), (0.5, 2), (0.9, 2)]),
-            "opcode_plan": sorted(rng.randrange(1, 1500) for _ in range(1 + rng.randrange(4))) if rng.random() < 0.25 else None}
+            "opcode_plan": sorted(rng.randrange(1, 1500) for _ in range(1 + rng.randrange(4))) if rng.random() < 0.15 else None,
+            "opcode_dense": [weighted(rng, [("filter_finished_or_failed", 4), ("__init__", 1), ("start", 2), ("loader_finished_or_failed", 1),
+                                            ("join_and_call", 1), ("_get_result", 1)]), 1 + rng.randrange(8)] if rng.random() < 0.12 else None}
